@@ -123,6 +123,15 @@ class AtomExtractor:
             # atoms dominating the return
             for rn in g.nodes_of(r):
                 for f in self.F.local(fn, None, rn):
+                    # `bs is not None` where bs is either bytes.fromhex(X) or the None of the handler that caught its failure: the decoding succeeded
+                    if f.kind == "cmp" and f.op == "is not" and isinstance(f.left, ast.Name) and isinstance(f.right, ast.Constant) and f.right.value is None:
+                        ds_ = defs_of(self.A, fn, f.left.id)
+                        hx_ = [d_ for d_ in ds_ if isinstance(d_, ast.Assign) and isinstance(d_.value, ast.Call) and call_name(d_.value) == "fromhex" and d_.value.args]
+                        rest_ = [d_ for d_ in ds_ if d_ not in hx_]
+                        if len(hx_) == 1 and all(isinstance(d_, ast.Assign) and isinstance(d_.value, ast.Constant) and d_.value.value is None for d_ in rest_):
+                            p = env.path_of(hx_[0].value.args[0])
+                            if p is not None:
+                                atoms.add(Atom("hex", p))
                     a = self.atoms_of_fact(f, env)
                     if a is None:
                         continue
@@ -163,6 +172,8 @@ class AtomExtractor:
             a = e.args[0]
             if isinstance(a, ast.Name):
                 ds = defs_of(self.A, env.fn, a.id)
+                # (besides the decoding, the name may be set to None where the decoding failed - len() is never reached with that)
+                ds = [d_ for d_ in ds if not (isinstance(d_, ast.Assign) and isinstance(d_.value, ast.Constant) and d_.value.value is None)] if len(ds) > 1 else ds
                 if len(ds) == 1 and isinstance(ds[0].value, ast.Call) and call_name(ds[0].value) == "fromhex":
                     return env.path_of(ds[0].value.args[0])
             if isinstance(a, ast.Call) and call_name(a) == "fromhex":
